@@ -53,6 +53,13 @@ structure Obj where
   idleSince : Nat := 0
 deriving Repr, DecidableEq, Inhabited
 
+/-- `Metrics::age()` read at instant `now`: time since creation -/
+def Obj.age (o : Obj) (now : Nat) : Nat := now - o.created
+
+/-- `Metrics::last_used()` read at instant `now`: time since the last hand-out after a reuse,
+since creation before the first reuse -/
+def Obj.lastUsed (o : Obj) (now : Nat) : Nat := now - o.recycled.getD o.created
+
 /-- How a `get()` ended. -/
 inductive Res
   | ok (id : Nat)
